@@ -1,4 +1,5 @@
 import Efp.Model.Store
+import Efp.Proofs.Links
 import Mathlib.Tactic.Tauto
 /-!
 # C05 — a what-if simulation never disturbs the baseline model
@@ -10,6 +11,11 @@ For pairs occupying pairwise distinct slots (`WF`) the two are inverse, so a suc
 the identity of the object in every slot and the slot of every object — exactly as it was.
 A simulation that raises never reaches `reset_values`: the statement for raising simulations is
 false of the code (finding D5) and is stated as a counterexample.
+
+The children / ancestor lists (the other half of "the baseline") are the subject of Model F
+(`Model/Links.lean`, compared with the real code by `K-bookkeeping`): switching simulated values on
+and off is a sequence of `replace_in_mod_obj_container_without_recomputation` calls, each of which
+keeps the links mirrored and the ids unique (`toggles_keep_links_mirrored`).
 -/
 namespace Efp.Props.C05
 open Efp.Store
@@ -248,6 +254,24 @@ theorem simulate_failure_changes_baseline :
     · simp
     · intro p hp q hq hne; simp at hp hq; subst hp; subst hq; exact absurd rfl hne
   · simp [setUpdated, replace]
+
+/-- **switching simulated values on or off keeps the dependency links mirrored**: any sequence of
+replacements (previous value ↦ simulated twin, or back), each applied to allocated values, from a
+state satisfying the link invariant, on plain attributes -/
+theorem toggles_keep_links_mirrored (pairs : List (Nat × Nat)) :
+    ∀ (s s' : Efp.Links.LS), Efp.Links.Inv s → Efp.Links.NoDict s →
+      pairs.foldlM (fun st p => Efp.Links.step st (.replace p.1 p.2)) s = .ok s' →
+      Efp.Links.Inv s' ∧ Efp.Links.NoDict s' := by
+  induction pairs with
+  | nil => intro s s' hI hD h; simp [List.foldlM] at h; cases h; exact ⟨hI, hD⟩
+  | cons p ps ih =>
+    intro s s' hI hD h
+    simp only [List.foldlM_cons, bind, Except.bind] at h
+    split at h
+    · cases h
+    rename_i s1 hs1
+    obtain ⟨i1, d1⟩ := Efp.Links.step_inv s (.replace p.1 p.2) s1 hI hD rfl hs1
+    exact ih s1 s' i1 d1 h
 
 /-! ## non-vacuity -/
 example : WF ⟨fun k => if k = 0 then some 10 else if k = 1 then some 20 else none,
